@@ -23,10 +23,34 @@ Theorem C18_open_bound : forall cf s, reach cf s -> open_bound cf s.
 Proof. exact open_bound_reach. Qed.
 Print Assumptions C18_open_bound.
 
-(* a connection is in at most one of: idle list, one requester, one hand-over, one delivered wantConn, being closed *)
+(* every connection ever dialled is in exactly one place: idle list, one requester, one hand-over, one delivered wantConn,
+   the private copy of CloseIdleConnections / the cleaner, or the log of connections whose Close() was called.
+   Hence: never lent to two requests, never idle or lent after Close, Close called at most once per connection,
+   and no connection drops out of the pool's books while it is open. *)
 Theorem C18_exclusive_lending : forall cf s, reach cf s -> exclusive s.
 Proof. exact exclusive_reach. Qed.
 Print Assumptions C18_exclusive_lending.
+
+(* CloseIdleConnections / connsCleaner are multi-step in the model: LCleanIdle takes a private copy (scratch) of idle
+   conns under the lock, then one LClose / LCloseFin pair per entry, interleavable with every other label.
+   The copy only ever receives conns that were idle at such a snapshot, and Close() is only ever called (once, by
+   C18_exclusive_lending) on a conn held by a requester or by such a copy — never on a conn that is in the idle list. *)
+Theorem C18_clean_copy_source : forall cf s l s', step cf s l = Some s' -> forall c, In c (scratch s') ->
+  In c (scratch s) \/ exists k, l = LCleanIdle k /\ In c (firstn k (idle s)).
+Proof. exact scratch_source. Qed.
+Print Assumptions C18_clean_copy_source.
+
+Theorem C18_close_only_held : forall cf s l s', step cf s l = Some s' ->
+  closelog s' = closelog s \/
+  exists c, l = LClose c /\ closelog s' = closelog s ++ [c] /\ (In c (lent s) \/ In c (scratch s)).
+Proof. exact closelog_source. Qed.
+Print Assumptions C18_close_only_held.
+
+(* when nothing is held any more, every connection that was ever dialled has had Close() called exactly once *)
+Theorem C18_all_closed_once : forall cf s, reach cf s -> held s = [] ->
+  NoDup (closelog s) /\ forall c, In c (closelog s) <-> (c < next s)%nat.
+Proof. exact quiescent_all_closed. Qed.
+Print Assumptions C18_all_closed_once.
 
 (* waiters, part 1: no AcquireConn call is inside the wait path after its deadline tick ... *)
 Theorem C18_waiter_outcome_by_deadline : forall cf s, reach cf s -> within_deadline s.
@@ -88,6 +112,15 @@ Example C18_ex_transfer :
   match run cf init [LAcquire 5 false; LDialOk 0; LAcquire 5 false; LEnqueue 0; LClose 0; LCloseFin 0;
                      LTick; LTick; LTick; LTick; LTick; LTimeout 0; LDialOk 0; LRelease 1] with
   | Some s => cnt s = 1 /\ idle s = [1%nat] /\ closing s = [] /\ wst (getw (wants s) 0) = WRet RNoFree
+  | None => False
+  end.
+Proof. vm_compute. repeat split; reflexivity. Qed.
+(* a release while CloseIdleConnections is between two Close calls: the released conn stays idle, the copy is closed *)
+Example C18_ex_release_during_close_idle :
+  let cf := {| maxc := 4; waiton := false; fifo := false |} in
+  match run cf init [LAcquire 1 false; LAcquire 1 false; LAcquire 1 false; LAcquire 1 false; LDialOk 0; LDialOk 0; LDialOk 0; LDialOk 0;
+                     LRelease 0; LRelease 1; LCleanIdle 2; LClose 0; LRelease 2; LRelease 3; LCloseFin 0; LClose 1; LCloseFin 1] with
+  | Some s => cnt s = 2 /\ idle s = [2; 3]%nat /\ closelog s = [0; 1]%nat /\ scratch s = [] /\ closing s = []
   | None => False
   end.
 Proof. vm_compute. repeat split; reflexivity. Qed.
